@@ -163,6 +163,15 @@ func c04(r *core.Report) {
 	}
 	ruleP2PKEAddressee(r, "C04-P2PKE")
 
+	// the identity p2pkeswarm reports is the CHANNEL's RemoteKey(), one value for all of its sessions:
+	// every session of a channel must therefore have been admitted under that one key (shared with C05)
+	r.Rule("C04-P2PKE-PIN", "a channel admits sessions of its pinned key only; the pin has one writer; a refusal is an error", 3)
+	if cs := resolveChan(r); cs != nil && len(r.Failures) == 0 {
+		ruleCheckKeyShape(r, cs, "C04-P2PKE-PIN")
+		ruleKeyWriters(r, cs, "C04-P2PKE-PIN")
+		ruleRejectIsError(r, cs, "C04-P2PKE-PIN")
+	}
+
 	// the identity p2pkeswarm reports is Channel.RemoteKey(), i.e. the remote key of a session
 	// that became usable: it is authenticated only if every path to a usable session state
 	// passed the role's verification transitions (shared with C03-AUTH-PATH)
